@@ -219,3 +219,11 @@ def binding_triggers(t, backend):
 
 def shorthand_triggers(kind, bname, t):
     return ["base:%s:%s" % (kind, bname)]
+
+
+def case_triggers(variant_text, backend):
+    import re
+    keys = []
+    if re.search(r"\d{4}-\d\d-\d\dt", variant_text) or re.search(r"\d\dz", variant_text):
+        keys.append("datetime-lowercase-t-z")
+    return keys
